@@ -23,14 +23,16 @@ import (
 )
 
 type c29Op struct {
-	Kind  string   `json:"kind"` // init | put (prepare+commit: create or reload) | del
+	Kind  string   `json:"kind"` // init | put (prepare+commit back to back: create or reload) | prep (prepare only) | commit | del
 	NS    string   `json:"ns"`
 	Users []mgUser `json:"users,omitempty"`
 }
 
-// c29Case: the manager is created with Init (one namespace), then Ops run in order.
+// c29Case: the manager is created with Init (plus More, only for histories whose pairs are
+// all distinct strings so that map iteration order cannot matter), then Ops run in order.
 type c29Case struct {
 	Init      c29Op    `json:"init"`
+	More      []c29Op  `json:"more_init,omitempty"`
 	Ops       []c29Op  `json:"ops"`
 	Names     []string `json:"probe_users"`
 	Passwords []string `json:"probe_passwords"`
@@ -71,11 +73,8 @@ type c29Rig struct {
 // (user, password) pair never exists in two namespaces at the same time.
 func c29Valid(c c29Case) bool {
 	live := map[string][]mgUser{}
-	apply := func(op c29Op) bool {
-		if op.Kind == "del" {
-			delete(live, op.NS)
-			return true
-		}
+	prepared := map[string][]mgUser{}
+	wellFormed := func(op c29Op) bool {
 		if len(op.Users) == 0 {
 			return false
 		}
@@ -85,26 +84,82 @@ func c29Valid(c c29Case) bool {
 				return false
 			}
 			seen[u.User] = true
-			for ns, us := range live {
-				if ns == op.NS {
+		}
+		return true
+	}
+	activate := func(ns string, users []mgUser) bool {
+		for _, u := range users {
+			for o, us := range live {
+				if o == ns {
 					continue
 				}
-				for _, o := range us {
-					if o == u {
+				for _, x := range us {
+					if x == u {
 						return false
 					}
 				}
 			}
 		}
-		live[op.NS] = op.Users
+		live[ns] = users
 		return true
+	}
+	apply := func(op c29Op) bool {
+		switch op.Kind {
+		case "del":
+			delete(live, op.NS)
+			return true
+		case "prep":
+			if !wellFormed(op) {
+				return false
+			}
+			prepared[op.NS] = op.Users
+			return true
+		case "commit":
+			// whether the manager accepts it is for the manager to decide; split histories are
+			// restricted below so that no outcome can put one pair into two namespaces
+			if us, ok := prepared[op.NS]; ok {
+				live[op.NS] = us
+			}
+			return true
+		}
+		if op.Kind == "put" {
+			prepared[op.NS] = op.Users
+		}
+		return wellFormed(op) && activate(op.NS, op.Users)
 	}
 	if c.Init.Kind != "init" || !apply(c.Init) {
 		return false
 	}
-	for _, op := range c.Ops {
-		if (op.Kind != "put" && op.Kind != "del") || !apply(op) {
+	for _, op := range c.More {
+		if op.Kind != "init" || op.NS == c.Init.NS || !apply(op) {
 			return false
+		}
+	}
+	split := false
+	for _, op := range c.Ops {
+		switch op.Kind {
+		case "put", "del":
+		case "prep", "commit":
+			split = true
+		default:
+			return false
+		}
+		if !apply(op) {
+			return false
+		}
+	}
+	if split || len(c.More) > 0 {
+		// split histories: which commits are accepted is for the manager to decide, so every
+		// pair of the history must belong to one namespace only, whatever gets activated
+		owner := map[mgUser]string{}
+		all := append(append([]c29Op{c.Init}, c.More...), c.Ops...)
+		for _, op := range all {
+			for _, u := range op.Users {
+				if o, ok := owner[u]; ok && o != op.NS {
+					return false
+				}
+				owner[u] = op.NS
+			}
 		}
 	}
 	return true
@@ -120,13 +175,25 @@ func (r *c29Rig) run(c c29Case, onlyFirst bool) []c29Failure {
 	for _, p := range c.Passwords {
 		pf[p] = proofs{mgNativeProof(salt, []byte(p)), mgSha2Proof(salt, []byte(p))}
 	}
-	m := mgNewManager(r.st, []*models.Namespace{mgNamespaceConfig(c.Init.NS, 0, c.Init.Users)})
-	defer mgDropManager(m)
+	initial := []*models.Namespace{mgNamespaceConfig(c.Init.NS, 0, c.Init.Users)}
 	ref := map[mgUser]string{}
 	live := map[string][]mgUser{c.Init.NS: c.Init.Users}
 	for _, u := range c.Init.Users {
 		ref[u] = c.Init.NS
 	}
+	for _, op := range c.More {
+		initial = append(initial, mgNamespaceConfig(op.NS, 0, op.Users))
+		live[op.NS] = op.Users
+		for _, u := range op.Users {
+			ref[u] = op.NS
+		}
+	}
+	m := mgNewManager(r.st, initial)
+	defer mgDropManager(m)
+	// abstract specification of the control plane: live = active configurations, prepared =
+	// configuration last prepared per namespace; a refused commit changes nothing, an accepted
+	// commit(n) activates exactly prepared[n]
+	prepared := map[string][]mgUser{}
 	var fails []c29Failure
 	check := func(step int, trigger, opNS string) {
 		for _, un := range c.Names {
@@ -197,6 +264,46 @@ func (r *c29Rig) run(c c29Case, onlyFirst bool) []c29Failure {
 				delete(ref, u)
 			}
 			delete(live, op.NS)
+		} else if op.Kind == "prep" {
+			trigger = "prepare"
+			if err := m.ReloadNamespacePrepare(mgNamespaceConfig(op.NS, i+1, op.Users)); err != nil {
+				fails = append(fails, c29Failure{Step: i + 1, Trigger: trigger, OpNS: op.NS, Clause: "operation-error"})
+				return fails
+			}
+			prepared[op.NS] = op.Users
+		} else if op.Kind == "commit" {
+			trigger = "commit"
+			var err error
+			var pan interface{}
+			func() {
+				defer func() { pan = recover() }()
+				err = m.ReloadNamespaceCommit(op.NS)
+			}()
+			if pan != nil {
+				fails = append(fails, c29Failure{Step: i + 1, Trigger: trigger, OpNS: op.NS, Clause: "panic-in-commit"})
+				return fails
+			}
+			if err != nil {
+				trigger = "commit-refused"
+				r.rec.Count("split.commit-refused", 1)
+			} else {
+				us, ok := prepared[op.NS]
+				if !ok {
+					fails = append(fails, c29Failure{Step: i + 1, Trigger: trigger, OpNS: op.NS, Clause: "commit-without-prepare"})
+					return fails
+				}
+				r.rec.Count("split.commit-accepted", 1)
+				if _, was := live[op.NS]; was {
+					r.closers++
+				}
+				for _, u := range live[op.NS] {
+					delete(ref, u)
+				}
+				live[op.NS] = us
+				for _, u := range us {
+					ref[u] = op.NS
+				}
+			}
 		} else {
 			trigger = "create"
 			if _, ok := live[op.NS]; ok {
@@ -212,6 +319,7 @@ func (r *c29Rig) run(c c29Case, onlyFirst bool) []c29Failure {
 				fails = append(fails, c29Failure{Step: i + 1, Trigger: trigger, OpNS: op.NS, Clause: "operation-error"})
 				return fails
 			}
+			prepared[op.NS] = op.Users
 			for _, u := range live[op.NS] {
 				delete(ref, u)
 			}
@@ -251,6 +359,9 @@ func c29MapColons(c c29Case, users, passwords bool) c29Case {
 		return o
 	}
 	d := c29Case{Init: mop(c.Init), SaltHex: c.SaltHex}
+	for _, op := range c.More {
+		d.More = append(d.More, mop(op))
+	}
 	for _, op := range c.Ops {
 		d.Ops = append(d.Ops, mop(op))
 	}
@@ -271,6 +382,9 @@ func c29HasColon(c c29Case) (users, passwords bool) {
 		}
 	}
 	scan(c.Init)
+	for _, op := range c.More {
+		scan(op)
+	}
 	for _, op := range c.Ops {
 		scan(op)
 	}
@@ -345,6 +459,13 @@ func (r *c29Rig) shrinkOps(c c29Case) c29Case {
 				}
 			}
 		}
+		for i := 0; i < len(c.More) && !changed; i++ {
+			d := c
+			d.More = append(append([]c29Op(nil), c.More[:i]...), c.More[i+1:]...)
+			if fails(d) {
+				c, changed = d, true
+			}
+		}
 		if !changed && c.Init.NS != c29Neutral.NS {
 			d := c
 			d.Init = c29Neutral
@@ -377,6 +498,9 @@ func c29Describe(c c29Case) string {
 		if op.Kind == "del" {
 			return "delete " + op.NS
 		}
+		if op.Kind == "commit" {
+			return "commit " + op.NS
+		}
 		us := []string{}
 		for _, u := range op.Users {
 			us = append(us, fmt.Sprintf("%q/%q", u.User, u.Password))
@@ -385,9 +509,15 @@ func c29Describe(c c29Case) string {
 		if op.Kind == "init" {
 			k = "start with"
 		}
+		if op.Kind == "prep" {
+			k = "prepare"
+		}
 		return fmt.Sprintf("%s %s{%s}", k, op.NS, strings.Join(us, ","))
 	}
 	parts := []string{one(c.Init)}
+	for _, op := range c.More {
+		parts = append(parts, one(op))
+	}
 	for _, op := range c.Ops {
 		parts = append(parts, one(op))
 	}
@@ -500,16 +630,96 @@ func c29Sample(r *kit.Rand) c29Case {
 	}
 }
 
+// c29SplitEnumerate calls f for every history of exactly nOps split operations
+// (prepare / commit / delete on n1, n2, n3) on a manager that starts with n1 and n2; shorter
+// histories are their prefixes (the oracle runs after every step). Every configuration has
+// user "a" with a password unique to (namespace, position), so any order of commits is valid.
+func c29SplitEnumerate(nOps int, salt string, f func(c29Case)) {
+	nss := []string{"n1", "n2", "n3"}
+	pw := func(ns string, i int) string { return fmt.Sprintf("%s:%d", ns, i) }
+	base := c29Case{Init: c29Op{Kind: "init", NS: "n1", Users: []mgUser{{"a", pw("n1", 0)}}},
+		More: []c29Op{{Kind: "init", NS: "n2", Users: []mgUser{{"a", pw("n2", 0)}}}}, Names: []string{"a"}, SaltHex: salt}
+	for _, ns := range nss {
+		for i := 0; i <= nOps; i++ {
+			base.Passwords = append(base.Passwords, pw(ns, i))
+		}
+	}
+	var rec func(ops []c29Op)
+	rec = func(ops []c29Op) {
+		if len(ops) == nOps {
+			c := base
+			c.Ops = append([]c29Op(nil), ops...)
+			f(c)
+			return
+		}
+		for _, k := range []string{"prep", "commit", "del"} {
+			for _, ns := range nss {
+				op := c29Op{Kind: k, NS: ns}
+				if k == "prep" {
+					op.Users = []mgUser{{"a", pw(ns, len(ops)+1)}}
+				}
+				rec(append(append([]c29Op(nil), ops...), op))
+			}
+		}
+	}
+	rec(nil)
+}
+
+// c29SplitSample draws a history that mixes split prepare / commit / delete with atomic
+// reloads over 3 namespaces; user names are shared between namespaces, every password
+// string belongs to one (namespace, position) only.
+func c29SplitSample(r *kit.Rand) c29Case {
+	nss := []string{"n1", "n2", "n3"}
+	names := []string{"a", "b", "a:b"}
+	bases := []string{"x", "x:y", ":", "p;q"}
+	c := c29Case{Names: names, SaltHex: c29Salt(r), Passwords: []string{"never"}}
+	users := func(ns string, pos int) []mgUser {
+		perm := r.Perm(len(names))
+		var us []mgUser
+		for j := 0; j < r.Range(1, 2); j++ {
+			p := fmt.Sprintf("%s@%s#%d", r.Pick(bases), ns, pos)
+			if j > 0 {
+				p += "'"
+			}
+			c.Passwords = append(c.Passwords, p)
+			us = append(us, mgUser{names[perm[j]], p})
+		}
+		return us
+	}
+	first := r.Intn(3)
+	c.Init = c29Op{Kind: "init", NS: nss[first], Users: users(nss[first], 0)}
+	if r.Chance(2, 3) {
+		second := (first + 1 + r.Intn(2)) % 3
+		c.More = []c29Op{{Kind: "init", NS: nss[second], Users: users(nss[second], 0)}}
+	}
+	n := r.Range(3, 8)
+	for i := 0; i < n; i++ {
+		ns := r.Pick(nss)
+		switch x := r.Intn(20); {
+		case x < 7:
+			c.Ops = append(c.Ops, c29Op{Kind: "prep", NS: ns, Users: users(ns, i+1)})
+		case x < 13:
+			c.Ops = append(c.Ops, c29Op{Kind: "commit", NS: ns})
+		case x < 16:
+			c.Ops = append(c.Ops, c29Op{Kind: "del", NS: ns})
+		default:
+			c.Ops = append(c.Ops, c29Op{Kind: "put", NS: ns, Users: users(ns, i+1)})
+		}
+	}
+	return c
+}
+
 func TestVerif_C29(t *testing.T) {
-	rec := kit.Start("C29", "exploration", "histories on the real Manager: (1) every valid history of the small space (initial namespace with one user, then up to k single-user create/reload/delete operations over 2 namespaces, users {a, a:b} x passwords {a, b, a:b, b:a}); (2) seeded histories of the larger space (3 namespaces, 1..3 users per configuration, up to 6 operations, 5 user names x 8 passwords with ':' / '::' / ';'); after every step all user x password pairs are probed through 4 password-check paths; non-trivial = distinct histories in which one user name is configured in two namespaces at the same time or a namespace is reloaded/deleted while another one is live")
+	rec := kit.Start("C29", "exploration", "histories on the real Manager: (1) every valid history of the small space (initial namespace with one user, then up to k single-user create/reload/delete operations over 2 namespaces, users {a, a:b} x passwords {a, b, a:b, b:a}); (2) seeded histories of the larger space (3 namespaces, 1..3 users per configuration, up to 6 operations, 5 user names x 8 passwords with ':' / '::' / ';'); (3) split control-plane operations: every history of exactly k operations over prepare / commit / delete x 3 namespaces (two configured at start), and seeded histories of up to 8 operations mixing split and atomic operations; after every step all user x password pairs are probed through 4 password-check paths against the set of pairs active under the abstract control-plane specification; non-trivial = distinct histories in which a namespace is changed while another one is live, or an operation falls between a prepare and a later commit")
 	defer rec.Finish(t)
 	if err := mgInit(); err != nil {
 		t.Fatal(err)
 	}
 	defer mgCleanup()
-	rec.Assume("configurations are ones the control plane accepts: every namespace has users, user names unique inside a namespace, no empty name or password, a (user, password) pair never configured in two namespaces at once; create and reload are prepare immediately followed by commit")
+	rec.Assume("configurations are ones the control plane accepts: every namespace has users, user names unique inside a namespace, no empty name or password, a (user, password) pair never configured in two namespaces at once; in parts (1) and (2) create and reload are prepare immediately followed by commit")
+	rec.Assume("split histories: prepare(n,cfg) records cfg as last prepared for n and changes no credential; commit(n) may be refused (no credential changes) or accepted (needs a configuration prepared for n; exactly its pairs replace n's pairs); delete(n) removes n's pairs; nothing else changes. Every password string of a split history belongs to one namespace, so every commit order is a valid configuration")
 	rec.Assume("'let in' means handleHandshakeResponse returned nil and the bound namespace exists in the manager (Session.Handshake refuses a session whose namespace does not exist)")
-	rec.Assume("the manager starts with exactly one namespace, so that CreateUserManager's map iteration cannot make outcomes differ between runs; namespaces have no backend addresses")
+	rec.Assume("in parts (1) and (2) the manager starts with exactly one namespace, so that CreateUserManager's map iteration cannot make outcomes differ between runs; split histories may start with two (their pairs are distinct strings); namespaces have no backend addresses")
 
 	rig := &c29Rig{st: mgStatsFor(), rec: rec}
 	rig.sess = mgNewSession(mgNewManager(rig.st, nil))
@@ -522,21 +732,36 @@ func TestVerif_C29(t *testing.T) {
 		rec.Eval(1)
 		// non-trivial: a user name shared by two live namespaces at some point, or a change while another namespace is live
 		live := map[string][]mgUser{c.Init.NS: c.Init.Users}
+		for _, op := range c.More {
+			live[op.NS] = op.Users
+		}
 		nt := false
-		for _, op := range c.Ops {
+		for i, op := range c.Ops {
 			others := 0
 			for ns := range live {
 				if ns != op.NS {
 					others++
 				}
 			}
-			if others > 0 {
+			if others > 0 && op.Kind != "prep" {
 				nt = true
 			}
-			if op.Kind == "del" {
+			switch op.Kind {
+			case "del":
 				delete(live, op.NS)
-			} else {
+			case "put":
 				live[op.NS] = op.Users
+			case "prep":
+				// split histories: something happens between this prepare and a later commit
+				for j := i + 2; j < len(c.Ops); j++ {
+					if c.Ops[j].Kind == "commit" {
+						nt = true
+					}
+				}
+			case "commit":
+				if _, ok := live[op.NS]; !ok {
+					live[op.NS] = nil
+				}
 			}
 		}
 		if nt {
@@ -599,6 +824,36 @@ func TestVerif_C29(t *testing.T) {
 		}
 	}
 	rec.Set("sampled_histories", nSample)
+	// split control-plane operations: prepare, commit and delete as separate steps in every order
+	split, invalid := 0, 0
+	c29SplitEnumerate(kit.N(3, 4), salt, func(c c29Case) {
+		if !c29Valid(c) {
+			invalid++
+			return
+		}
+		split++
+		handle(c)
+		if split%2000 == 1 {
+			rec.Sample(c)
+		}
+	})
+	rec.Set("split_space_histories", split)
+	nSplit := kit.N(1500, 15000)
+	for i := 0; i < nSplit; i++ {
+		c := c29SplitSample(r)
+		if !c29Valid(c) {
+			invalid++
+			continue
+		}
+		handle(c)
+		if i%(nSplit/3+1) == 0 {
+			rec.Sample(c)
+		}
+	}
+	rec.Set("split_sampled_histories", nSplit)
+	if invalid > 0 {
+		rec.Inconclusive(fmt.Sprintf("%d generated split histories were not valid configurations (generator bug)", invalid))
+	}
 	rec.Set("manager_histories_executed_including_shrinking", rig.runs)
 	rec.Count("manager.operations", rig.ops)
 	rec.Count("delayed-namespace-closes", rig.closers)
